@@ -115,6 +115,19 @@ Proof.
   - apply master_op_71; assumption.
 Qed.
 
+(* the verdicts the driver evaluates on trace lines (Spec/CaseOk.v) are, on every case in scope, the
+   correspondence and the property relation themselves *)
+Lemma verdict_in_scope c r : case_okb c = true ->
+  prop_verdict c r = prop_case c r /\ corr_verdict c r = result_eqb (run_case c) r.
+Proof.
+  unfold case_okb, prop_verdict, corr_verdict. rewrite !andb_true_iff. intros [_ Hl]. rewrite Hl. split; reflexivity.
+Qed.
+
+Theorem master_verdict c : In (c_op c) all_ops -> case_okb c = true -> prop_verdict c (run_case c) = true.
+Proof.
+  intros Hin Hok. destruct (verdict_in_scope c (run_case c) Hok) as [-> _]. apply master; assumption.
+Qed.
+
 (* ------------------------------------------------------------------ coverage of the interpreter *)
 
 Lemma notin_existsb (x : N) l : ~ In x l -> existsb (N.eqb x) l = false.
